@@ -55,3 +55,52 @@ func H_C04_Conversions() {
 	nd.Observe("sell", sell)
 	_ = math.ZeroInt
 }
+
+func init() {
+	register("H_C04_MatchKernel", H_C04_MatchKernel)
+}
+
+// H_C04_MatchKernel: the arithmetic kernel of types.Match for a single bid with
+// ample cap and supply, for every price, match price and amount: the matched
+// quantity is floor(worth*S/matchPrice) (worth bid) or the amount (quantity
+// bid), and the payment is ceil(matchPrice*quantity/S), never above the
+// reservation when the match price does not exceed the bid price.
+func H_C04_MatchKernel() {
+	bits := nd.Param("bits", 100)
+	p := nd.DecN("bidPrice", bits)
+	m := nd.DecN("matchPrice", bits)
+	a := nd.IntN("amount", bits)
+	nd.Assume(a.IsPositive())
+	nd.Assume(m.IsPositive())
+	nd.Assume(m.LTE(p))
+	worth := nd.Pick("worth", 2) == 1
+	bid := types.Bid{AuctionId: 0, Id: 1, Bidder: user(1), Type: types.BidTypeBatchMany, Price: p, Coin: sdk.Coin{Denom: denomSell, Amount: a}}
+	if worth {
+		bid.Type = types.BidTypeBatchWorth
+		bid.Coin.Denom = denomPay
+	}
+	big := nd.IntN("cap", 2*bits+70)
+	qty := nd.ZInt(a)
+	if worth {
+		qty = nd.ZInt(a).Mul(zS()).FloorDiv(nd.ZDec(m))
+	}
+	nd.Assume(nd.ZInt(big).GE(qty))
+	res, matched := types.Match(m, []math.LegacyDec{p}, map[string][]types.Bid{p.String(): {bid}}, big, []types.AllowedBidder{{AuctionId: 0, Bidder: user(1), MaxBidAmount: big}})
+	nd.Assert("C04.kernel-fits", res != nil)
+	if res == nil {
+		return
+	}
+	r := res.MatchResultByBidder[user(1)]
+	nd.Assert("C04.kernel-bidder-result", r != nil)
+	if r == nil {
+		return
+	}
+	got, paid := nd.ZInt(r.MatchedAmount), nd.ZInt(r.PayingAmount)
+	nd.Assert("C04.kernel-quantity", got.EQ(qty))
+	nd.Assert("C04.kernel-matched-iff-positive", nd.Iff(matched, qty.IsPos()))
+	nd.Assert("C04.kernel-payment-is-ceiling", paid.EQ(nd.ZDec(m).Mul(qty).CeilDiv(zS())))
+	nd.Assert("C04.kernel-payment-within-reservation", paid.LE(payAmtZ(bid)))
+	nd.Observe("got", r.MatchedAmount)
+	nd.Observe("paid", r.PayingAmount)
+	nd.Cover("kernel")
+}
